@@ -12,6 +12,7 @@ import SimVerif.Props.C07
 import SimVerif.Drv.Kernel
 
 namespace SimVerif
+open Hs
 
 /-! ### the hop -/
 
@@ -139,14 +140,14 @@ theorem natChain_src (exts : List String) (hv4 : ∀ e ∈ exts, addrIsV4 e = tr
       | none => simp at hl
       | some z => simp [List.getLast?_cons_cons, hl]
 
-theorem abortSend_forwards (name : String) (u : UdpSock) : forwards (u.abortSend name).2 = [] := by
+theorem abortSend_forwards (name : String) (u : UdpSock) : fwdPkts (u.abortSend name).2 = [] := by
   unfold UdpSock.abortSend
-  cases u.waitSendH <;> simp [forwards]
+  cases u.waitSendH <;> simp [fwdPkts]
 
-/-- what `send_to` forwards: one datagram, from the socket's own bound endpoint, carrying the
+/-- what `send_to` fwdPkts: one datagram, from the socket's own bound endpoint, carrying the
     payload, no channel -/
 theorem udpSendTo_forward (n : NetSt) (now : Int) (name : String) (dst : Ep) (payload : List UInt8) (q : Pkt)
-    (hq : q ∈ forwards (n.udpSendTo now name dst payload).2.1) :
+    (hq : q ∈ fwdPkts (n.udpSendTo now name dst payload).2.1) :
     ∃ u, (n.udpSendTo now name dst payload).1.udp? name = some u ∧ q.src = u.bound.toString
       ∧ q.payload = payload ∧ q.ty = .payload ∧ q.chan = none ∧ q.len = payload.length := by
   unfold NetSt.udpSendTo at hq ⊢
@@ -189,8 +190,8 @@ theorem udpSendTo_forward (n : NetSt) (now : Int) (name : String) (dst : Ep) (pa
                           | none => simp [hr, hab] at hq
                           | some hops =>
                             simp only [hr] at hq ⊢
-                            rw [forwards_append, forwards_append, hab, forwards_ite_single _ _ (by intro c h; cases h)] at hq
-                            simp [forwards] at hq
+                            rw [fwdPkts_append, fwdPkts_append, hab, fwdPkts_ite_single _ _ (by intro c h; cases h)] at hq
+                            simp [fwdPkts] at hq
                             subst hq
                             exact ⟨_, udp?_setUdp_same _ _ _, rfl, rfl, rfl, rfl, rfl⟩
 
@@ -199,7 +200,7 @@ theorem udpSendTo_forward (n : NetSt) (now : Int) (name : String) (dst : Ep) (pa
     `(external address of the LAST hop, the sender's own port)` together with the payload; the
     sender's own local endpoint is not touched; no channel is touched. -/
 theorem C13_udp_source (n : NetSt) (now : Int) (name : String) (dst : Ep) (payload : List UInt8) (q : Pkt)
-    (hq : q ∈ forwards (n.udpSendTo now name dst payload).2.1)
+    (hq : q ∈ fwdPkts (n.udpSendTo now name dst payload).2.1)
     (exts : List String) (hv4 : ∀ e ∈ exts, addrIsV4 e = true) (chans : List Chan) :
     ∃ u, (n.udpSendTo now name dst payload).1.udp? name = some u
       ∧ (natChain exts q chans).1.src = ({ u.bound with addr := exts.getLast?.getD u.bound.addr } : Ep).toString
@@ -229,7 +230,7 @@ theorem C13_udp_source (n : NetSt) (now : Int) (name : String) (dst : Ep) (paylo
 /-- **`C13_no_nat_real_address`** (UDP): no NAT on the route — the receiver is told the sender's
     real bound endpoint. -/
 theorem C13_no_nat_real_address (n : NetSt) (now : Int) (name : String) (dst : Ep) (payload : List UInt8) (q : Pkt)
-    (hq : q ∈ forwards (n.udpSendTo now name dst payload).2.1) (chans : List Chan) :
+    (hq : q ∈ fwdPkts (n.udpSendTo now name dst payload).2.1) (chans : List Chan) :
     ∃ u, (n.udpSendTo now name dst payload).1.udp? name = some u ∧ (natChain [] q chans).1.src = u.bound.toString := by
   obtain ⟨u, h1, h2, _⟩ := udpSendTo_forward n now name dst payload q hq
   exact ⟨u, h1, h2⟩
@@ -240,7 +241,7 @@ theorem C13_udp_source_pending (q : Pkt) (r : UdpSock) (op : RecvOp)
     (hop : r.isOpen = true) (hb : r.bound.isDefault = false) (hqe : r.queue = [])
     (hsz : r.queueSize + q.size ≤ 262144) (hr1 : r.recvH = some op) (hnull : r.recvNull = false) :
     (r.incoming q).2
-      = [.post { h := op.h, ec := .ok, extra := recvExtra op.withEp (q.payload.take (op.caps.foldl (· + ·) 0)) q.src }] := by
+      = [.post { h := op.h, ec := .ok, extra := recvExtra op.withEp (q.payload.take (op.caps.foldl (· + ·) 0)) q.src, data := q.payload.take (op.caps.foldl (· + ·) 0), src := q.src }] := by
   unfold UdpSock.incoming
   have : ¬ (r.queueSize + (q.size : Int) > 262144) := by omega
   simp only [this, if_false]
